@@ -47,9 +47,9 @@ Range(s) == { s[i] : i \in 1..Len(s) }
 \* operations: name -> <<kinds of operands, kind of result, number of optional Jacobian outputs>>
 \*   operand kinds: "G" element register, "T" tangent register, "D" the destination itself (read-modify-write)
 GOps == [compose |-> <<"G", "G">>, inverse |-> <<"G">>, between |-> <<"G", "G">>, rplus |-> <<"G", "T">>,
-         lplus |-> <<"G", "T">>, exp |-> <<"T">>, assign |-> <<"G">>, pluseq |-> <<"D", "T">>,
+         lplus |-> <<"G", "T">>, exp |-> <<"T">>, assign |-> <<"G">>, moveassign |-> <<"G">>, pluseq |-> <<"D", "T">>,
          timeseq |-> <<"D", "G">>, normalize |-> <<"D">>, setIdentity |-> <<>>, setRandom |-> <<>>]
-TOps == [log |-> <<"G">>, rminus |-> <<"G", "G">>, lminus |-> <<"G", "G">>, tassign |-> <<"T">>,
+TOps == [log |-> <<"G">>, rminus |-> <<"G", "G">>, lminus |-> <<"G", "G">>, tassign |-> <<"T">>, tmoveassign |-> <<"T">>,
          tsetZero |-> <<>>, tsetRandom |-> <<>>, tneg |-> <<"T">>]
 \* observers: operations whose result is a vector / matrix / scalar and that write no location
 OOps == [act |-> <<"G">>, adj |-> <<"G">>, transform |-> <<"G">>, rjac |-> <<"T">>, ljac |-> <<"T">>,
@@ -75,7 +75,9 @@ Key(op, ids) == <<op>> \o ids
 Result(op, ids) == IF ~Fresh(op) /\ \E k \in DOMAIN memo : memo[k][1] = Key(op, ids)
                    THEN (CHOOSE k \in DOMAIN memo : memo[k][1] = Key(op, ids)) \* index into memo
                    ELSE 0
-ResultId(op, ids) == IF Result(op, ids) # 0 THEN memo[Result(op, ids)][2] ELSE next
+\* copy / move / cross-kind assignment preserve the value exactly: the result IS the operand's identifier
+IsCopy(op) == op \in {"assign", "moveassign", "tassign", "tmoveassign"}
+ResultId(op, ids) == IF IsCopy(op) THEN ids[1] ELSE IF Result(op, ids) # 0 THEN memo[Result(op, ids)][2] ELSE next
 
 OperandIds(kinds, dst, a, b, isG) ==
   [i \in 1..Len(kinds) |->
@@ -93,7 +95,7 @@ GCall(op, dst, a, b, mask) ==
       rid == ResultId(op, ids)
   IN /\ gval' = [gval EXCEPT ![GLoc(dst)] = rid]           \* frame: nothing else changes
      /\ UNCHANGED tval
-     /\ memo' = IF Fresh(op) \/ Result(op, ids) # 0 THEN memo ELSE Append(memo, <<Key(op, ids), rid>>)
+     /\ memo' = IF Fresh(op) \/ IsCopy(op) \/ Result(op, ids) # 0 THEN memo ELSE Append(memo, <<Key(op, ids), rid>>)
      /\ next' = IF rid = next THEN next + 1 ELSE next
      /\ hist' = Append(hist, [op |-> op, dst |-> dst, a |-> a, b |-> b, mask |-> mask, ids |-> ids, res |-> rid,
                               post |-> Snapshot([gval EXCEPT ![GLoc(dst)] = rid], tval)])
@@ -103,7 +105,7 @@ TCall(op, dst, a, b, mask) ==
       rid == ResultId(op, ids)
   IN /\ tval' = [tval EXCEPT ![TLoc(dst)] = rid]
      /\ UNCHANGED gval
-     /\ memo' = IF Fresh(op) \/ Result(op, ids) # 0 THEN memo ELSE Append(memo, <<Key(op, ids), rid>>)
+     /\ memo' = IF Fresh(op) \/ IsCopy(op) \/ Result(op, ids) # 0 THEN memo ELSE Append(memo, <<Key(op, ids), rid>>)
      /\ next' = IF rid = next THEN next + 1 ELSE next
      /\ hist' = Append(hist, [op |-> op, dst |-> dst, a |-> a, b |-> b, mask |-> mask, ids |-> ids, res |-> rid,
                               post |-> Snapshot(gval, [tval EXCEPT ![TLoc(dst)] = rid])])
